@@ -2,6 +2,20 @@
 created (fresh objects every time) by the harness."""
 
 
+class JobResult:
+    """What a job file typically defines for its own results: persisting it
+    needs the job module to be importable under its own name."""
+
+    def __init__(self, value):
+        self.value = value
+
+    def __eq__(self, other):
+        return isinstance(other, JobResult) and other.value == self.value
+
+    def __hash__(self):
+        return hash(self.value)
+
+
 def job():
     from checks import c04
     return c04.CURRENT['make']()
